@@ -41,6 +41,19 @@ if P:
         BNF = cfg.BNF(GRAMMAR, maybe_placeholders=MP)
         LARK = Lark(GRAMMAR.render(), parser='earley', lexer=hs.make_list_lexer(NAMES), ambiguity=WHAT, maybe_placeholders=MP)
     CYCLIC = BNF.is_cyclic()
+    # the forest of some other accepted input: one transformer / visitor object used on it first must work on the next forest as a fresh one does
+    OTHER_ROOT = None
+    if WHAT == 'forest' and not CYCLIC:
+        import itertools as _it
+        for _n in (2, 1, 3):
+            for _w in _it.product(range(K), repeat=_n):
+                try:
+                    OTHER_ROOT = LARK.parse(hs.class_string(list(_w), REPS) if TEXT else list(_w))
+                    break
+                except UnexpectedInput:
+                    continue
+            if OTHER_ROOT is not None:
+                break
     PLAIN = cfg.is_plain(BNF)
     BNF_ONLY = not any(r.helper for r in BNF.rules.values())
 
@@ -144,6 +157,10 @@ def _body(rec, xs):
             root = res
             t = TreeForestTransformer(resolve_ambiguity=False).transform(root)
             trees = shape.expand_ambig(t)
+            if OTHER_ROOT is not None:
+                shared = TreeForestTransformer(resolve_ambiguity=False)
+                shared.transform(OTHER_ROOT)
+                info['reuse_differs'] = shared.transform(root) != t
             resolved = TreeForestTransformer(resolve_ambiguity=True).transform(root)
             info['is_ambiguous'] = bool(root.is_ambiguous)
             for sv in (False, True):
@@ -196,6 +213,8 @@ def _body(rec, xs):
         if gotset != want:
             return hs.fail(rec, 'expanded result differs from the set of derivations', input=key_in, missing=sorted(want - gotset)[:3],
                            extra=sorted(gotset - want)[:3])
+        if WHAT == 'forest' and info.get('reuse_differs'):
+            return hs.fail(rec, 'a TreeForestTransformer object that transformed another forest first gives a different result than a fresh one', input=key_in)
         if WHAT == 'forest':
             if TEXT:
                 # identity of a derivation at text level includes the offsets of its tokens
